@@ -34,3 +34,32 @@ mc("C19", "Every schedule (bound 2/3) of a polling consumer, 1-2 publishers (uni
    "stateless model checking with eager virtual timers", "DESIGN.md 5 C19")
 mc("C20", "Every history up to depth 5 (6) over (clock advance in {0, rt-1, rt, rt+1}) x (downstream S/E/P) x thresholds 0..3 x mock service on/off on the real breaker under the virtual clock against the state machine the property describes; every schedule (bounded) of 2-3 concurrent callers with all outcome choices.",
    "exhaustive histories against a reference state machine + stateless model checking of concurrent callers", "DESIGN.md 5 C20")
+
+ENGINES[0]["serves_properties"] = ["C01", "C02", "C03", "C04", "C05", "C06", "C07"]
+ENGINES.append({"name": "netlab", "path": "/verif/mc/netlab, /verif/mc/rpclab", "serves_properties": ["C08", "C11", "C12", "C13"],
+  "kind_free_text": "enumerated fault / input spaces against the real transports on ephemeral loopback ports and temp-dir unix sockets, raw TCP/UDP/HTTP/WebSocket peers, one worker process per scenario group (a dead worker convicts one scenario)"})
+
+chk("C03", "exploration",
+    "Exhaustive inside a stated scope: every value of the C01 universe (depth 2, thorough 3) x {simple, reference} x {Encode, Write} plus sequences of three values on one encoder with and without Reset is parsed by an independent reader of the published grammar (hpref.Parse: tags, decimal syntax, UTF-16 unit counts, byte counts, element counts, class-before-object, reference indices) and compared with an independent denotation of the Go value (hpref.Denote).",
+    "hpref is my reading of the grammar (assumptions listed in the evidence); scope hypothesis as in C01.",
+    "bounded-exhaustive enumeration against an independent reference reader and denotation", "DESIGN.md 3 C03", "enum")
+chk("C07", "exploration",
+    "Exhaustive inside a stated scope: argument lists of 0..3 values over a 12-type alphabet x 13 parameter-list shapes x 7 return-type shapes x 6 header sets x 15 names x 15 errors x client/service Simple x Debug x the 120 decoder-setting tuples, driven through the real client and service codecs (hprose and JSON-RPC) without transport; oracle: method identity, headers, arguments, results equal by the normalising canonical form, error messages exact, no panic.",
+    "Scope hypothesis; cases a decoder setting cannot represent are skipped and counted; gen.Canon is the trusted equality.",
+    "bounded-exhaustive enumeration of codec round trips against the input values", "DESIGN.md 3 C07", "enum")
+chk("C08", "exploration",
+    "Exhaustive inside a stated scope: 45 published functions covering the signature shapes x argument tuples from the reduced C01 alphabet x 5 name spellings x 4 entry points (proxy with/without error result, typed/untyped Invoke) x 7 transports x codec simple/ref x pool on/off; oracle: the local call of the same function (reference model), invocation counter advanced by exactly one, recorded arguments equal, errors and panics arrive as errors with the message.",
+    "Real sockets on loopback (ephemeral ports); sequential calls; values the serializer alone cannot carry are skipped and counted.",
+    "bounded-exhaustive enumeration of calls against the local call as reference model", "DESIGN.md 4 C08", "netlab")
+chk("C11", "fault_enumeration",
+    "Every element of a finite fault alphabet (panics at 4 sites x 9 panic values, wrong-type and undecodable arguments, short / corrupted / length-lying frames, oversize requests and responses, malformed responses towards the client) x transports x pool on/off x 3 sentinel placements, each scenario in its own process; oracle: the process is alive, sentinel calls are correct, the faulty call returns an error within its time-out plus generous slack.",
+    "Real sockets on loopback; one-sided timing oracle with slack; client and server share the scenario process (which side died is read from the stack).",
+    "exhaustive fault enumeration with process-level isolation", "DESIGN.md 4 C11", "netlab")
+chk("C12", "fault_enumeration",
+    "Every payload length 0..4200 (thorough 0..20000) plus the boundary set up to 1 MiB x 5 content patterns x 10 client/server pairings x both directions through an IO-level echo; every single-bit flip (thorough: plus 2-bit flips) of the socket and udp frame headers for 64 (256) length/index pairs; every declared-versus-actual length pair on tcp/unix/udp/websocket/HTTP with a marker frame of another client sent first; oracle: delivered bytes == submitted bytes or rejection, the marker never surfaces.",
+    "Real sockets on loopback; raw peers send exactly the prescribed bytes; the raw-frame scenarios use an inline worker pool.",
+    "exhaustive enumeration of lengths, header corruptions and length lies against real transports", "DESIGN.md 4 C12", "netlab")
+chk("C13", "fault_enumeration",
+    "limits {8, 64, 1024} (thorough 9 limits) x sizes {L-1, L, L+1, 4L, 1 MiB, 4 MiB} x 11 client/server pairings x declaration {truthful, absent (chunked / streamed), smaller, larger}; a counting IO handler and a counting function must see nothing above the limit, at or below it the call works, above it the real client gets the too-large error.",
+    "Real sockets on loopback; the caller-side error for large refused bodies depends on a write/read race (recorded as a known finding).",
+    "exhaustive enumeration of limit x size x declaration x transport", "DESIGN.md 4 C13", "netlab")
